@@ -99,7 +99,7 @@ def install(reg):
     def os_path_getsize(p, args, kw):
         fs = fs_of(p)
         t = str_term(p, args[0])
-        if not p.branch(kind_at(p, fs.kind, t) != ABSENT):
+        if not p.pure and not p.branch(kind_at(p, fs.kind, t) != ABSENT):
             p.raise_("FileNotFoundError")
         f = p.engine.uf("dir_size", S, I)
         return VInt(z3.If(kind_at(p, fs.kind, t) == FILE, z3.Length(z3.Select(fs.data, t)), f(t)))
@@ -135,6 +135,11 @@ def install(reg):
             r = f(r, t)
         return VStr(r)
     E["os.path.join"] = os_path_join
+
+    def os_path_relpath(p, args, kw):
+        f = p.engine.uf("relpath", S, S, S)
+        return VStr(f(str_term(p, args[0]), str_term(p, args[1])))
+    E["os.path.relpath"] = os_path_relpath
 
     def os_getcwd(p, args, kw):
         return VStr(p.engine.uf("getcwd", I, S)(z3.IntVal(0)))
@@ -511,10 +516,48 @@ def install(reg):
         return VBool(z3.And(kind_at(p, fs.kind, t) == FILE, h.path == t, z3.BoolVal(not h.closed)))
     SF["file_wf"] = s_file_wf
 
+    def s_file_open(p, f):
+        h = p.deref(f)
+        return VBool(isinstance(h, HFile) and not h.closed)
+    SF["file_open"] = s_file_open
+
     def s_file_same(p, f, g):
         a, b = p.deref(f), p.deref(g)
         return VBool(z3.And(a.tail == b.tail, a.path == b.path, z3.BoolVal(a.closed == b.closed)))
     SF["file_same"] = s_file_same
+
+    def s_listed_files(p):
+        t = p.ghost.get("listed_files")
+        if t is None:
+            raise ContractError("no call of filelist_total on this path")
+        return t
+    SF["listed_files"] = s_listed_files
+
+    def s_listed_total(p):
+        return p.ghost["listed_total"]
+    SF["listed_total"] = s_listed_total
+
+    def s_v1_pieces(p, stream, pl):
+        """BEP 3: concatenation of SHA-1 of each successive piece_length slice of the stream (only the last may be short)"""
+        f = p.engine.uf("v1_pieces", BYTES, I, BYTES)
+        st = p.bytes_term(stream)
+        t = f(st, p.as_int(pl))
+        p.assume(z3.Implies(st == z3.Empty(BYTES), t == z3.Empty(BYTES)))
+        return VBytes(t)
+    SF["v1_pieces"] = s_v1_pieces
+
+    def s_v1_unfold(p, S_, P_, R_, pl):
+        """ground instance of the definition of v1_pieces in relational form (with L3: the prefix of a given length is unique):
+             len P == pl and P ++ R == S            ==>  v1_pieces(S) == sha1(P) ++ v1_pieces(R)
+             0 < len P < pl and R == [] and P == S  ==>  v1_pieces(S) == sha1(P)"""
+        f = p.engine.uf("v1_pieces", BYTES, I, BYTES)
+        sha = p.engine.uf("sha1", BYTES, BYTES)
+        Sx, Px, Rx, n = p.bytes_term(S_), p.bytes_term(P_), p.bytes_term(R_), p.as_int(pl)
+        a = z3.Implies(z3.And(z3.Length(Px) == n, z3.Concat(Px, Rx) == Sx), f(Sx, n) == z3.Concat(sha(Px), f(Rx, n)))
+        b = z3.Implies(z3.And(z3.Length(Px) > 0, z3.Length(Px) < n, Rx == z3.Empty(BYTES), Px == Sx), f(Sx, n) == sha(Px))
+        c = f(z3.Empty(BYTES), n) == z3.Empty(BYTES)
+        return VBool(z3.And(a, b, c))
+    SF["v1_unfold"] = s_v1_unfold
 
     def s_hint(p, *args):
         """evaluating the arguments instantiates the ground lemmas attached to the terms they build; the value is True"""
